@@ -1,5 +1,6 @@
 //! Shared machinery of the anstyle verification harness (see /verif/DESIGN.md).
 pub mod drive;
+pub mod fault;
 pub mod gen;
 pub mod rt;
 pub mod sgr;
